@@ -340,6 +340,39 @@ def _judge_table(model, m, fn):
                 glob[st.targets[0].id] = it0.eval(st.value, glob)
             except (AnalysisError, Raised, StepBound):
                 pass
+        elif isinstance(st, ast.Assign) and len(st.targets) == 1 and \
+                isinstance(st.targets[0], ast.Subscript) and isinstance(
+                    st.targets[0].value, ast.Name) and \
+                isinstance(glob.get(st.targets[0].value.id), dict):
+            # TABLE[key] = entry, at module level
+            try:
+                it0.stmt(st, glob)
+            except (AnalysisError, Raised, StepBound):
+                pass
+
+    class SD(dict):
+        """a table keyed by nodes: keys are found by structural equality (the
+        abstract nodes hash by identity)"""
+
+        def _find(self, k):
+            for k2 in dict.keys(self):
+                if oeq(k2, k):
+                    return k2
+            return _MISSING
+
+        def __contains__(self, k):
+            return self._find(k) is not _MISSING
+
+        def __getitem__(self, k):
+            k2 = self._find(k)
+            if k2 is _MISSING:
+                raise KeyError(k)
+            return dict.__getitem__(self, k2)
+
+        def get(self, k, dflt=None):
+            k2 = self._find(k)
+            return dflt if k2 is _MISSING else dict.__getitem__(self, k2)
+    _MISSING = object()
 
     def oeq(a, b):
         if isinstance(a, Obj) and isinstance(b, Obj):
@@ -348,6 +381,10 @@ def _judge_table(model, m, fn):
         if isinstance(a, tuple) and isinstance(b, tuple):
             return len(a) == len(b) and all(oeq(x, y) for x, y in zip(a, b))
         return type(a) is type(b) and a == b
+
+    for nm_, v_ in list(glob.items()):
+        if type(v_) is dict and v_ and any(isinstance(k_, Obj) for k_ in v_):
+            glob[nm_] = SD(v_)
 
     def to_rat(v, npar):
         if isinstance(v, bool):
@@ -1170,11 +1207,20 @@ def _linear_rules(ctx, model, dm):
     # variable / constant
     mem = model.lookup(dm, "map_variable")
     saw = {}
+    from ..summary import split_conditionals
     for ps in summarize(mem.node):
-        for _, pol, v in ps.conds:
-            if isinstance(v, tuple) and v[0] == "compare" and v[1] == ("Eq",) and \
-                    {v[2], v[3][0]} == {NODE, ("self", "variable")}:
-                saw[pol] = ps.retval
+        # (a conditional expression is the same two paths)
+        variants = [(list(ps.conds), ps.retval)]
+        if isinstance(ps.retval, tuple) and ps.term == "return":
+            variants = [(list(ps.conds) + [(None, pol_, t_) for t_, pol_ in cs],
+                         val_) for cs, val_ in split_conditionals(ps.retval)]
+        for conds_, rv_ in variants:
+            for _, pol, v in conds_:
+                v = getattr(v, "val", v)
+                if isinstance(v, tuple) and v[0] == "compare" and \
+                        v[1] == ("Eq",) and \
+                        {v[2], v[3][0]} == {NODE, ("self", "variable")}:
+                    saw[pol] = rv_
     ok = saw.get(True) == ("const", 1) and saw.get(False) == ("const", 0)
     ctx.ob("E/map_variable", ok, where(mem),
            "dx/dx = 1, dy/dx = 0" if ok else
